@@ -584,3 +584,65 @@ Example mark_inactive_example :
   accepts c s 3 1 3 = true /\
   ia (mark_inactive c (actives 1 (fold_left (receive c 1) L s)) (fold_left (receive c 1) L s)) = [4; 5].
 Proof. vm_compute. split; reflexivity. Qed.
+
+(* ---------- 3.6 one sending step of the run: what live honest members publish reaches every
+   live honest member, who therefore does not mark the sender inactive ---------- *)
+Definition stepped (f : mstate -> mstate * list msg) (sts : list mstate) : list (mstate * list msg) :=
+  map (fun s => if failed s then (s, []) else f s) sts.
+Definition published (c : cfg) (f : mstate -> mstate * list msg) (adv : list netmsg) (sts : list mstate) : list netmsg :=
+  flat_map (fun x => if failed (fst x) then [] else map (wrap c) (snd x)) (stepped f sts) ++ adv.
+
+Lemma exchange_eq : forall c sc p f adv sts,
+  exchange c sc p f adv sts =
+  map (fun s => if failed s then s else
+                fold_left (receive c p)
+                          (arrival (published c f adv sts)
+                                   (order_for sc (me s) p (length (published c f adv sts)))) s)
+      (map fst (stepped f sts)).
+Proof.
+  intros. unfold exchange, published, stepped. f_equal.
+  apply map_ext. intros [s out]. cbn. destruct (failed s); reflexivity.
+Qed.
+
+Lemma exchange_delivers : forall c sc p f adv sts sd rc x,
+  In sd sts -> In rc sts ->
+  failed sd = false -> failed (fst (f sd)) = false -> In x (snd (f sd)) ->
+  failed rc = false -> failed (fst (f rc)) = false ->
+  kind_ok p x = true ->
+  is_perm (length (published c f adv sts))
+          (order_for sc (me (fst (f rc))) p (length (published c f adv sts))) = true ->
+  accepts c (fst (f rc)) (msg_sender x) (msg_sess x) (from_key (wrap c x)) = true ->
+  exists rc', In rc' (exchange c sc p f adv sts) /\ me rc' = me (fst (f rc)) /\ inbox_has x rc'
+              /\ (p <> 3 -> ~ In (msg_sender x) (ia (mark_inactive c (actives p rc') rc'))).
+Proof.
+  intros c sc p f adv sts sd rc x Hsd Hrc Fsd Fsd' Hx Frc Frc' Hk Hperm Hacc.
+  set (all := published c f adv sts) in *.
+  set (L := arrival all (order_for sc (me (fst (f rc))) p (length all))).
+  exists (fold_left (receive c p) L (fst (f rc))).
+  assert (HinL : In (wrap c x) L).
+  { unfold L. apply arrival_In; [exact Hperm|]. unfold all, published. apply in_or_app. left.
+    apply in_flat_map. exists (f sd). split.
+    - unfold stepped. apply in_map_iff. exists sd. rewrite Fsd. auto.
+    - rewrite Fsd'. apply in_map. exact Hx. }
+  split; [|split; [|split]].
+  - rewrite exchange_eq. apply in_map_iff. exists (fst (f rc)). split.
+    + rewrite Frc'. reflexivity.
+    + apply in_map_iff. exists (f rc). split; [reflexivity|].
+      unfold stepped. apply in_map_iff. exists rc. rewrite Frc. auto.
+  - apply fold_receive_view.
+  - apply (delivered c p L (fst (f rc)) (wrap c x) HinL); assumption.
+  - intros Hp3. apply (arrived_not_marked_inactive c p L (fst (f rc)) (wrap c x) HinL); assumption.
+Qed.
+
+Example exchange_delivers_sat :
+  let c := wit_cfg in
+  let sts := map init_state (i_honest wit_input) in
+  let f := fun s => (s, phase1 c s) in
+  let sd := init_state {| h_id := 2; h_coefA := [11; 12; 13]%Z; h_coefB := [21; 22; 23]%Z |} in
+  let rc := init_state {| h_id := 3; h_coefA := [31; 32; 33]%Z; h_coefB := [41; 42; 43]%Z |} in
+  let x := EphPub 2 1 (keys_of 2 [1; 3; 4; 5]) in
+  In sd sts /\ In rc sts /\ failed sd = false /\ failed rc = false /\ In x (snd (f sd)) /\ kind_ok 1 x = true /\
+  is_perm (length (published c f (adv1 wit_script) sts))
+          (order_for wit_script (me (fst (f rc))) 1 (length (published c f (adv1 wit_script) sts))) = true /\
+  accepts c (fst (f rc)) (msg_sender x) (msg_sess x) (from_key (wrap c x)) = true.
+Proof. vm_compute. repeat split; auto. Qed.
